@@ -240,7 +240,9 @@ impl<Hd: SizedPayload, El: SizedPayload> TSt<Hd, El> {
     fn log(&mut self, f: impl FnOnce() -> String) {
         if let Some(t) = self.trace.as_mut() {
             let s = f();
-            t.push(format!("step {:3}: {}", self.step, s));
+            let l = format!("step {:3}: {}", self.step, s);
+            rt::run::trace_stream(&l);
+            t.push(l);
         }
     }
     fn fresh(&mut self) -> u64 {
